@@ -124,6 +124,7 @@ CONF_UPDATE_HOOK(iauth_class_conf_changed)
     struct conf_node_object *obj;
     struct conf_node_string *str;
     struct set_node *it;
+    struct set_node *field;
     unsigned int n_rules;
     unsigned int o_idx = 0;
     int res;
@@ -138,6 +139,18 @@ CONF_UPDATE_HOOK(iauth_class_conf_changed)
         if (base->type != CONF_OBJECT)
             continue;
         obj = set_node_data(it);
+
+        /* The section hook only runs when rules come or go; watch
+         * each rule and each of its fields for in-place edits.
+         */
+        if (!obj->base.hook)
+            obj->base.hook = iauth_class_conf_changed;
+        for (field = set_first(&obj->contents); field != NULL;
+             field = set_next(field)) {
+            base = set_node_data(field);
+            if (!base->hook)
+                base->hook = iauth_class_conf_changed;
+        }
 
         /* Load the new rule. */
         rule = &new_rules.vec[new_rules.used];
